@@ -48,6 +48,10 @@ unchanged); what belongs to a position that is not below the unit being solved i
 when the solved unit refers to it; a deep copy shares no unit / profile / roll / sub-unit list with the original - reachability follows attributes,
 containers, weak references AND callables given as values (`__self__` of a bound method, the arguments of a partial) -
 and every back-reference inside the copy points into the copy.
+Values given as MUTABLE objects where immutable scalars are usual (numpy arrays for the numeric entries of a profile or a
+roll template) are shared by reference along the line like every other value: the same clauses, array contents compared
+as bytes (stream `mutable-numbers`, oracle only - the heap model has numbers as atoms; on the side of the source the
+translator lists every in-place operation of every hook function, certified to act on own locals only).
 """
 import copy
 import functools
@@ -78,7 +82,10 @@ RULE = ("random histories on real objects: 1-2 caller profiles (round 30 mm / 55
         "append / replace / change gap / bind a callable / read values on a profile, a template, a unit, its roll or its profiles / "
         "register a classifier hook on a throw-away Transport subclass; ~8% of the cases contain a physically "
         "infeasible pass (solve raises inside pyroll: only the oracle runs from there). A case is non-trivial when it "
-        "contains a re-solve, a deep copy or an edit after a solve; distinct by the op list.")
+        "contains a re-solve, a deep copy or an edit after a solve; distinct by the op list. A second stream (30 / 300 "
+        "histories, same generator, oracle only) gives numeric entries of the incoming profiles (>= 1 of strain, temperature, "
+        "flow_stress, length, t, density) and of half of the new roll templates (nominal_radius, rotational_frequency, extra "
+        "entries) as MUTABLE numbers: numpy 0-d array / 1-d array of one element / 0-d view into a series.")
 ASSUMPTIONS = [
     "copy.deepcopy of third-party values (shapely geometries, numpy arrays, builtin containers) is a parameter of the "
     "model: a new object with equal content; CPython's memo protocol, weakref and dict order are modelled, not verified",
@@ -105,6 +112,9 @@ ASSUMPTIONS = [
     "a callable given as an explicit value is modelled as an object holding ONE reference (what it is bound to); that "
     "copy.deepcopy rebuilds bound methods / partials / objects from the deep copies of what they hold (CPython: "
     "_deepcopy_method, __reduce_ex__) is part of the modelled-not-verified deepcopy protocol",
+    "numbers are atoms of the model; histories in which a number is given as a mutable object (numpy array) are checked by "
+    "the oracle only; that no hook function changes a received value in place is certified on the translated list of the "
+    "in-place operations of all hook functions (per function, no alias analysis through calls)",
     "user processors and user hook functions are outside the statement (the core hands values on by reference; a user "
     "function that mutates a received set in place changes every profile sharing it - see notes/C12.md, O1)",
 ]
@@ -144,6 +154,27 @@ def is_atom(v):
 # explicit values that are CALLABLES holding a reference to another object of the graph (the library evaluates a callable
 # explicit value lazily in Hook.__get__: `value()` or `value(instance)`)
 BOUND_FIELD = {"duration": 43, "pacing": 44}
+
+
+# numeric entries given as MUTABLE numbers (numpy arrays where python floats are usual): name -> value.  The solver handles
+# array valued hook results (`evaluate_and_set_hooks`); such a value is ONE object shared by reference by the caller's
+# profile, every in-profile copy, the out-profiles that hand it on and the returned profiles (roll template -> pass roll)
+BOX_PROFILE = {"temperature": 1200 + 273.15, "strain": 0.0, "flow_stress": 100e6, "length": 1.0, "t": 0.0, "density": 7.5e3}
+BOX_ROLL = {"nominal_radius": 160e-3, "rotational_frequency": 1.0, "my_wear": 0.1, "temperature": 300.0}
+BOX_FORMS = ["a0", "a1", "a0", "a1", "a0s"]
+
+
+def boxed_value(v, form):
+    """`a0`: 0-d array `np.array(x)`, `a1`: 1-d array of one element, `a0s`: a 0-d VIEW into a larger array the caller keeps
+    (a measured series: one cell handed in) - in-place arithmetic on any of them changes the caller's data"""
+    np = _np()
+    if form == "a0":
+        return np.array(float(v))
+    if form == "a1":
+        return np.array([float(v)])
+    if form == "a0s":
+        return np.array([float(v), float(v) + 1.0, float(v) + 2.0])[0:1].reshape(())
+    raise ValueError(f"unknown form of a mutable number: {form!r}")
 
 
 def pace_of(leader):
@@ -543,6 +574,22 @@ class Oracle:
     # -- registration -------------------------------------------------------------------------
     def add_input(self, what, o):
         self.inputs.append((what, o, snap(o)))
+        self.see_values(o)
+
+    def see_values(self, o):
+        """every mutable container / array stored on an object the caller handed in (explicit entries and evaluated
+        values of a roll template, a groove): its CONTENT stays what it was when first seen, whoever shares it"""
+        mt = _mutable_types()
+        d = getattr(o, "__dict__", None)
+        if not isinstance(d, dict):
+            return
+        for store in (d, d.get("__cache__") or {}):
+            for k, v in list(store.items()):
+                if k == "__cache__":
+                    continue
+                for x in ([v] + (list(v) if isinstance(v, (tuple, list)) and not hasattr(v, "_owner") else [])):
+                    if isinstance(x, mt) and id(x) not in self.values:
+                        self.values[id(x)] = (x, fp(x), f"{type(o).__name__}.{k}")
 
     def add_returned(self, p):
         self.returned.append((p, snap(p)))
@@ -690,6 +737,8 @@ class Oracle:
         self.scan(roots)
         self.check_caches()
         self.check_positions()
+        for _, o, _s in self.inputs:
+            self.see_values(o)
         for pid, (p, s) in list(self.profiles.items()):
             self.profiles[pid] = (p, snap(p))
         self.values = {k: (x, fp(x), w) for k, (x, f, w) in self.values.items()}
@@ -746,9 +795,32 @@ class Oracle:
                 work.extend(d.values())
         return seen
 
+    def doubly_listed_part(self, ro):
+        """ids of everything that belongs to a unit LISTED IN MORE THAN ONE SEQUENCE (the unit, its profiles, roll, sub-unit
+        list, the units below it), among the objects `ro` (id -> object) reachable from what is being copied.  Such a unit has
+        ONE parent link but two lists naming it (C13's known finding `adopt-unit-still-listed-elsewhere`); which of the two
+        lists re-parents its copy last is an accident of the copy order, so "the back-reference points into the copy / is
+        live in the copy" is not defined for back-references that lead into or out of this part - they are not judged"""
+        count, unit_of = {}, {}
+        for o in ro.values():
+            if isinstance(o, list) and hasattr(o, "_owner"):
+                for x in {id(x): x for x in o}.values():
+                    count[id(x)] = count.get(id(x), 0) + 1
+                    unit_of[id(x)] = x
+        part = set()
+        for i, n in count.items():
+            if n > 1:
+                part |= set(self.reach_struct(unit_of[i]))
+        return part
+
     def check_copy(self, orig, cp, memo=None):
         pr = self.lib.pr
         ro, rc = self.reach(orig), self.reach(cp)
+        dl = self.doubly_listed_part(ro)
+        original_of = {id(memo[i]): i for i in ro if i in memo} if (dl and memo is not None) else {}
+
+        def in_dl(x):
+            return id(x) in dl or original_of.get(id(x)) in dl
         names = ((pr.Unit, "unit"), (pr.Profile, "profile"), (pr.Roll, "roll"))
         for i in set(ro) & set(rc):
             o = ro[i]
@@ -773,6 +845,8 @@ class Oracle:
                 r = getattr(o, "__dict__", {}).get(attr)
                 if isinstance(r, weakref.ref):
                     t = r()
+                    if dl and t is not None and (in_dl(o) != in_dl(t)):
+                        continue                # into / out of the part that is listed in two sequences: not judged
                     if t is not None and id(t) in ro and id(t) not in inside:
                         self.problems.append((f"deepcopy-backlink-outside:{nm}", f"{nm} back-reference of a copied "
                                               f"{type(o).__name__} points to the ORIGINAL {type(t).__name__}"))
@@ -834,12 +908,30 @@ class Oracle:
         cp = copy.deepcopy(orig, memo)
         tree = self.reach_strong(orig)
         original_of = {id(memo[i]): o for i, o in tree.items() if i in memo}
+        ro = self.reach(orig)
+        dl = self.doubly_listed_part(ro)
+        orig_any = {id(memo[i]): ro[i] for i in ro if i in memo} if dl else {}
         memo.clear()
         del memo
+
+        def in_dl(x):
+            return id(x) in dl or id(orig_any.get(id(x))) in dl
         strong = self.reach_strong(cp)
         for o in strong.values():
             for attr, nm in (("_unit", "unit"), ("_roll_pass", "roll_pass"), ("_owner", "owner"), ("_parent", "parent")):
                 r = getattr(o, "__dict__", {}).get(attr)
+                if dl and isinstance(r, weakref.ref):
+                    # a back-reference into / out of the part that is listed in two sequences is not judged (see
+                    # `doubly_listed_part`); a dead one: judged by where it leads in the ORIGINAL
+                    t = r()
+                    if t is None:
+                        src0 = orig_any.get(id(o))
+                        r0 = src0.__dict__.get(attr) if src0 is not None else None
+                        t0 = r0() if isinstance(r0, weakref.ref) else None
+                        if src0 is not None and t0 is not None and ((id(src0) in dl) != (id(t0) in dl)):
+                            continue
+                    elif in_dl(o) != in_dl(t):
+                        continue
                 if isinstance(r, weakref.ref) and r() is None and o is not cp:
                     src = original_of.get(id(o))
                     if src is not None:
@@ -982,9 +1074,15 @@ class World:
         return ids
 
     # -- construction ops -----------------------------------------------------------------------
-    def op_profile(self, chain, extras):
+    def op_profile(self, chain, extras, boxed=()):
+        """`boxed`: [name, form] pairs - numeric entries of the incoming profile given as mutable numbers (`boxed_value`).
+        The heap model has numbers as atoms: the MODEL side of such a history is off (oracle only)"""
         pr, np = self.lib.pr, _np()
         kw = dict(temperature=1200 + 273.15, strain=0, flow_stress=100e6, length=1)
+        if boxed:
+            self.model_ok = False
+            for name, form in boxed:
+                kw[name] = boxed_value(BOX_PROFILE[name], form)
         if "material" in extras:
             kw["material"] = ["C45", "steel"]
         if "chemical_composition" in extras:
@@ -1009,7 +1107,7 @@ class World:
         self.oracle.see_profile(p)
         return k
 
-    def op_pass(self, chain, pos, rot, disks, gapj, like=None, look=(), via="template"):
+    def op_pass(self, chain, pos, rot, disks, gapj, like=None, look=(), via="template", box=()):
         """`rot`: bool (automatic rotation on/off) or an explicit angle; `like`: slot of an earlier pass from which the
         new one takes an object that already belongs to that position - `via` = "template": the Roll object the earlier
         pass was built from (one template for two passes), "roll": THE ROLL OF THE EARLIER PASS itself
@@ -1017,8 +1115,14 @@ class World:
         earlier pass' template (one groove object under two rolls); `look`: attributes the caller reads on the roll
         object BEFORE he hands it to the pass constructor.
         Building a pass is an operation of the library: the oracle's clauses apply to it (what was handed in and every
-        other position unchanged, the new pass shares nothing with another position, back-references name the own pass)"""
+        other position unchanged, the new pass shares nothing with another position, back-references name the own pass).
+        `box`: [name, form] pairs - numeric entries of a NEW roll template given as mutable numbers (model side off)"""
         pr = self.lib.pr
+        tkw = dict(nominal_radius=160e-3, rotational_frequency=1)
+        if box:
+            self.model_ok = False
+            for name, form in box:
+                tkw[name] = boxed_value(BOX_ROLL[name], form)
         rotation = rot if isinstance(rot, bool) else float(rot)
         kw = {}
         if disks:
@@ -1044,7 +1148,7 @@ class World:
         if src is not None and via == "groove" and like in self.tpl_of:
             g = self.slots[self.tpl_of[like]].groove
             kg = self.find(g)
-            tpl = pr.Roll(groove=g, nominal_radius=160e-3, rotational_frequency=1)
+            tpl = pr.Roll(groove=g, **tkw)
             if look:
                 self.read(tpl, look)
             kt = self.reg(tpl)
@@ -1084,7 +1188,7 @@ class World:
                  lambda: pr.RoundGroove(r1=1e-3, r2=12.5e-3, depth=11.5e-3),
                  lambda: pr.CircularOvalGroove(depth=6e-3, r1=6e-3, r2=35e-3),
                  lambda: pr.RoundGroove(r1=1e-3, r2=10e-3, depth=9e-3)][pos % 4]()
-        tpl = pr.Roll(groove=g, nominal_radius=160e-3, rotational_frequency=1)
+        tpl = pr.Roll(groove=g, **tkw)
         if look:
             self.read(tpl, look)
         # what the caller hands to the constructor is an input from here on
@@ -1396,14 +1500,30 @@ def pass_rotation(rng, chain, pos, acc, infeasible):
     return rot
 
 
-def gen_history(rng, w, n_actions, infeasible):
+def gen_boxes(rng, table, p):
+    """which numeric entries are given as mutable numbers, and in which form"""
+    return [[n, rng.choice(BOX_FORMS)] for n in table if rng.random() < p]
+
+
+def gen_history(rng, w, n_actions, infeasible, mut=False):
+    """`mut`: the stream "values given as MUTABLE objects where immutable scalars are usual" - numeric entries of the
+    incoming profiles (at least one per profile) and of newly built roll templates are numpy arrays (0-d, 1-d, a view
+    into a series); everything else as in the main stream.  All additional draws are guarded by `mut`, so the main
+    stream is the same with and without it"""
     lib = w.lib
     chain = "3" if rng.random() < 0.12 else "A"
     extras_pool = ["material", "chemical_composition", "my_array", "my_tags"]
     profs = []
     for _ in range(1 if rng.random() < 0.6 else 2):
         extras = [e for e in extras_pool if rng.random() < 0.5]
-        profs.append(w.apply(("profile", chain, extras)))
+        if mut:
+            boxed = gen_boxes(rng, BOX_PROFILE, 0.5) or [[rng.choice(sorted(BOX_PROFILE)), rng.choice(BOX_FORMS)]]
+            profs.append(w.apply(("profile", chain, extras, boxed)))
+        else:
+            profs.append(w.apply(("profile", chain, extras)))
+
+    def tbox():
+        return (gen_boxes(rng, BOX_ROLL, 0.5),) if mut and rng.random() < 0.5 else ()
     # units in rolling order; between two passes the profile is turned by explicit rotators (0-2, any angle, transports
     # in between) and / or by the rotation of the following pass
     n_units = rng.randrange(1, 7)
@@ -1423,7 +1543,8 @@ def gen_history(rng, w, n_actions, infeasible):
             like = pass_at.get(pos - 2) if rng.random() < 0.3 else None
             via = rng.choice(VIA) if like is not None else "template"
             look = some(rng, LOOK_TEMPLATE) if rng.random() < 0.3 else []
-            k = w.apply(("pass", chain, pos, rot, rng.choice([0, 0, 1, 2]), rng.choice([1.0, 0.9, 1.1]), like, look, via))
+            k = w.apply(("pass", chain, pos, rot, rng.choice([0, 0, 1, 2]), rng.choice([1.0, 0.9, 1.1]), like, look, via)
+                        + tbox())
             units.append(k)
             pass_at[pos] = k
             pos += 1
@@ -1601,7 +1722,7 @@ def gen_history(rng, w, n_actions, infeasible):
                 elif ko is not None and ko not in w.tpl_of and rng.random() < 0.4:
                     like, via = ko, "roll"
                 look = some(rng, LOOK_TEMPLATE) if rng.random() < 0.3 else []
-                k = w.apply(("pass", chain, p, rot, rng.choice([0, 1]), rng.choice([0.8, 1.2]), like, look, via))
+                k = w.apply(("pass", chain, p, rot, rng.choice([0, 1]), rng.choice([0.8, 1.2]), like, look, via) + tbox())
             w.apply(("replace", q, i, k))
         elif r < 0.88:
             q = w.slots[rng.choice(all_roots)]
@@ -1755,6 +1876,22 @@ CORPUS = [
      (None, ("solve", "$s", "$p")), (None, ("solvev", "$s", "$p", "forward", 0.5, 0.0)), (None, ("keep", "$s")),
      (None, ("bind", "$r1", "pacing", "partial", "$a")), ("s2", ("seq", ["$t"])), (None, ("solve", "$s2", "$p")),
      (None, ("deepcopy", "$s2")), (None, ("deepcopy", "$s"))],
+    # numeric entries given as MUTABLE numbers (0-d / 1-d numpy arrays, a 0-d view into a series) on two caller profiles and
+    # on a roll template; two passes directly after each other (the second one's in-profile shares every handed-on array with
+    # the first one's out-profile and with what the first one returned), a transport, a third pass; whole line solved and
+    # re-solved, walked through by the caller (the later pass solved twice with the profile the earlier one returned), a
+    # velocity solver, a deep copy solved with the same caller profile.  Oracle only (the model has numbers as atoms)
+    [("p", ("profile", "A", ["my_array"], [["strain", "a0"], ["temperature", "a1"], ["length", "a0s"], ["t", "a1"],
+                                            ["flow_stress", "a0"], ["density", "a1"]])),
+     ("q", ("profile", "A", ["material"], [["strain", "a1"], ["t", "a0"]])),
+     ("a", ("pass", "A", 0, True, 0, 1.0, None, [], "template", [["nominal_radius", "a0"], ["rotational_frequency", "a1"],
+                                                                 ["my_wear", "a0s"]])),
+     ("b", ("pass", "A", 1, True, 1, 1.0)), ("t", ("transport", 1, False, False)),
+     ("c", ("pass", "A", 2, True, 0, 1.0, None, ["working_radius"], "template", [["temperature", "a1"]])),
+     ("s", ("seq", ["$a", "$b", "$t", "$c"])), ("r1", ("solve", "$s", "$p")), (None, ("solve", "$s", "$p")),
+     ("x1", ("solve", "$a", "$q")), ("x2", ("solve", "$b", "$x1")), (None, ("solve", "$b", "$x1")),
+     ("k", ("keep", "$a")), (None, ("solve", "$b", "$k")), (None, ("solvev", "$s", "$p", "forward", 1.0, 0.0)),
+     ("d", ("deepcopy", "$s")), (None, ("solve", "$d", "$p")), (None, ("solve", "$s", "$r1"))],
 ]
 
 
@@ -1824,6 +1961,18 @@ def run(ctx):
             w.close()
         records.append(Record(w, "infeasible" if infeasible else "random"))
         del w
+    # values given as MUTABLE objects where immutable scalars are usual (numpy 0-d / 1-d arrays for the numeric entries of
+    # the incoming profile and of the roll templates), shared by reference along the line.  The heap model has numbers as
+    # atoms, so these histories are the oracle's alone (inputs - value AND content -, returned and earlier profiles, every
+    # array reachable from a profile or an input keeps its bytes).  Generated AFTER the main stream: its draws are untouched
+    for _ in range(ctx.budget(30, 300)):
+        w = World(False)
+        try:
+            gen_history(ctx.rng, w, ctx.rng.randrange(3, 10), False, mut=True)
+        finally:
+            w.close()
+        records.append(Record(w, "mutable-numbers"))
+        del w
     lean_lines = []
     for r in records:
         ops = [tuple(o) for o in r.ops]
@@ -1832,6 +1981,12 @@ def run(ctx):
         ctx.count("stream:" + r.stream)
         for o in ops:
             ctx.count("op:" + o[0])
+            if o[0] == "profile" and len(o) > 3:
+                for name, form in o[3]:
+                    ctx.count(f"mutable-number:profile.{name}:{form}")
+            if o[0] == "pass" and len(o) > 9:
+                for name, form in o[9]:
+                    ctx.count(f"mutable-number:roll.{name}:{form}")
         if r.aborted:
             ctx.count("solve-stopped-by-harness:runaway-solution-loops")
         elif r.failed_solve:
@@ -1862,7 +2017,8 @@ def run(ctx):
                     bad = (i, line, exp, got)
             pos += len(r.lines)
             if bad is None:
-                ctx.validated()
+                if r.lines:                     # (an oracle-only history has nothing the model was compared on)
+                    ctx.validated()
             else:
                 i, line, exp, got = bad
                 ctx.disagreement(f"model and implementation differ at model line #{i} ({line[:60]})",
